@@ -105,6 +105,7 @@ def run_task(args):
     pid, clause_index, shard, nshards, tier, seed, examples = args
     mod = load_property(pid)
     clause = mod.CLAUSES[clause_index]
+    clause.property_id = pid
     col = _Collector(clause)
     import signal
     limit = int(os.environ.get("VERIF_TASK_WATCHDOG",
@@ -202,7 +203,7 @@ def _run_fuzz(pid, clause, col, tier, shard, seed):
 def _run_enumeration(clause, col, tier, shard, nshards):
     for case in clause.enumerate(tier, shard, nshards):
         try:
-            outcome = clause.check(case)
+            outcome = clause.run(case)
         except Violation as v:
             col.failure = (case, v.message, v.details)
             return
@@ -228,7 +229,7 @@ def _run_hypothesis(pid, clause, col, tier, shard, seed, examples):
                 col.shrink_truncated = True
                 return
         try:
-            outcome = clause.check(case)
+            outcome = clause.run(case)
         except Violation as v:
             col.failure = (case, v.message, v.details)
             col.fail_count += 1
@@ -274,8 +275,9 @@ def replay_file(mod, path):
     clause = [c for c in mod.CLAUSES if c.name == doc["clause"]]
     if not clause:
         raise HarnessError("replay names unknown clause %r" % doc["clause"])
+    clause[0].property_id = mod.PROPERTY_ID
     try:
-        clause[0].check(doc["case"])
+        clause[0].run(doc["case"])
     except Violation as v:
         return (v.message, v.details)
     return None
